@@ -106,7 +106,10 @@ def mk_array(d):
         a = np.array(d["re"], dtype=np.complex128) + 1j * np.array(d["im"], dtype=np.complex128)
     else:
         a = np.array(d["re"], dtype=np.int64)
-    return a.reshape(d["shape"]).copy()      # owns its buffer (`.base is None`)
+    a = a.reshape(d["shape"]).copy()         # owns its buffer (`.base is None`)
+    if d.get("F") and a.ndim >= 2:
+        a = np.asfortranarray(a)             # same logical array, Fortran memory order (the model does not know about layouts)
+    return a
 
 
 def py_spec(sp):
@@ -967,6 +970,20 @@ def fixed_cases():
                           {"op": "add", "sig": s(0), "a": {"sc": [True, 1, 1]}}, {"op": "add", "sig": s(1), "a": _new([3], [1, 1, 1], [2, 2, 2])},
                           {"op": "reset", "sig": b0, "ka": None}, {"op": "add", "sig": s(2), "a": {"sc": [False, 3, 0]}},
                           {"op": "add", "sig": s(0), "a": _new([2, 2], [1, 0, 0, 1], [0, 0, 0, 0])}]}))
+    # a sensitivity held in Fortran order (the first add deep-copies the layout of the argument): keep-alloc reset must zero it
+    fnew = lambda shape, re: {"new": {"c": False, "shape": shape, "re": re, "F": True}}   # noqa
+    cases.append(("owned", {"slices": [{"p": b0, "k": "tuple", "sl": [[None, None, None], [1, None, None]]}],
+                  "ops": [{"op": "new_signal", "st": _new([2, 3], [1, 2, 3, 4, 5, 6]), "se": None},
+                          {"op": "add", "sig": b0, "a": fnew([2, 3], [1, 2, 3, 4, 5, 6])}, {"op": "reset", "sig": b0, "ka": True},
+                          {"op": "add", "sig": b0, "a": fnew([2, 3], [10, 20, 30, 40, 50, 60])}, {"op": "add", "sig": s(0), "a": {"sc": [False, 1, 0]}},
+                          {"op": "reset", "sig": b0, "ka": True}, {"op": "add", "sig": b0, "a": _new([2, 3], [7, 7, 7, 7, 7, 7])},
+                          {"op": "set_sens", "sig": b0, "a": fnew([2, 3], [1, 0, 0, 0, 1, 0])}, {"op": "reset", "sig": b0, "ka": True},
+                          {"op": "add", "sig": b0, "a": {"sc": [False, 2, 0]}}]}))
+    # a slice assigned from the signal's OWN state seen through another view (reversal / shift inside one array): numpy copies first
+    cases.append(("owned", {"slices": [{"p": b0, "k": "basic", "sl": [None, None, -1]}, {"p": b0, "k": "basic", "sl": [1, 5, None]},
+                                      {"p": b0, "k": "basic", "sl": [0, 4, None]}],
+                  "ops": [sig5, {"op": "set_state", "sig": s(0), "a": {"held": [0, "state"]}},
+                          {"op": "add", "sig": b0, "a": _new([5], [1, 1, 1, 1, 1])}, {"op": "set_sens", "sig": s(0), "a": {"held": [0, "sens"]}}]}))
     return [(st, {"m": "c18.run", **c}) for st, c in cases]
 
 
